@@ -3,6 +3,7 @@
 package weshnet
 
 import (
+	"google.golang.org/protobuf/encoding/protowire"
 	crand "crypto/rand"
 	"fmt"
 	"sort"
@@ -171,6 +172,14 @@ func c03Build(rt *rapid.T, k *c03Keys, et protocoltypes.EventType) (honest []byt
 	} else {
 		add("payload-changed-after-signing", k.g, et, sp, goodSig, true)
 	}
+	// the signer field occurs twice in the encoding: first the forger's own key, then the victim's (the decoder keeps
+	// the last occurrence, so the event names the victim); signed by the forger over the whole payload
+	if fd := msg.ProtoReflect().Descriptor().Fields().ByName(protoreflect.Name(field)); fd != nil && et != protocoltypes.EventType_EventTypeMultiMemberGroupInitialMemberAnnounced {
+		twice := append([]byte(nil), sp...) // sp names k.otherDev
+		twice = protowire.AppendTag(twice, fd.Number(), protowire.BytesType)
+		twice = protowire.AppendBytes(twice, c03Pub(k.device))
+		add("signer-field-twice-signed-by-first", k.g, et, twice, sign(k.otherDev, twice), true)
+	}
 	// signature variants
 	add("sig-missing", k.g, et, payload, nil, true)
 	add("sig-truncated", k.g, et, payload, goodSig[:63], true)
@@ -206,6 +215,18 @@ func c03Build(rt *rapid.T, k *c03Keys, et protocoltypes.EventType) (honest []byt
 				sig = sign(signer, p2)
 			}
 			add(label, k.g, et, p2, sig, true)
+		}
+		// the member field occurs twice: a foreign member attests the device, then the victim member is named
+		{
+			m2 := proto.Clone(msg).(*protocoltypes.GroupMemberDeviceAdded)
+			m2.MemberPk = c03Pub(k.otherMem)
+			m2.MemberSig = sign(k.otherMem, m2.DevicePk)
+			p2, _ := proto.Marshal(m2)
+			if fd := m2.ProtoReflect().Descriptor().Fields().ByName("member_pk"); fd != nil {
+				p2 = protowire.AppendTag(p2, fd.Number(), protowire.BytesType)
+				p2 = protowire.AppendBytes(p2, c03Pub(k.member))
+				add("member-field-twice-attested-by-first", k.g, et, p2, sign(k.device, p2), true)
+			}
 		}
 		mk("member-sig-by-foreign-key", func(m *protocoltypes.GroupMemberDeviceAdded) crypto.PrivKey {
 			m.MemberSig = sign(k.otherMem, m.DevicePk)
